@@ -252,7 +252,13 @@ fn gen_size_limit(rng: &mut Rng) -> usize {
         2 => 4095,
         3 => 4096,
         4 => 4097,
-        5 => 1 << 30,
+        5 => {
+            if rng.chance(1, 2) {
+                1 << 30
+            } else {
+                usize::MAX
+            }
+        }
         6 => rng.range(3, 200) as usize,
         7 => rng.range(200, 9000) as usize,
         _ => rng.range(9000, 200_000) as usize,
